@@ -191,6 +191,7 @@ void Reference::transform(double mag, bool x_refl, double rot, const Vec2 orig) 
     rotation = r1 * rotation + rot;
     magnification *= mag;
     x_reflection ^= x_refl;
+    repetition.transform(mag, x_refl, rot);
 }
 
 void Reference::apply_repetition(Array<Reference*>& result) {
